@@ -11,7 +11,7 @@ popcount in [0,64], distance/rank/file in [0,7], number_of_pieces in [0,10]
 tables by their evaluated values. Anything else raises AnalysisBroken."""
 from facts import AnalysisBroken
 from prog import walk, kids, short
-from rules.common import strip_casts, const_of
+from rules.common import strip_casts, const_of, range_for_consts
 
 TOP = None
 
@@ -202,6 +202,14 @@ class BFrame:
                 self.ret_sites.append((n.get('l'), v))
         elif k in ('BreakStmt', 'ContinueStmt', 'NullStmt'):
             pass
+        elif k == 'CXXForRangeStmt' and range_for_consts(n) is not None:
+            # a loop over a braced list of constants: the body once per listed value, in order
+            var, vals, body = range_for_consts(n)
+            if any(x['k'] in ('BreakStmt', 'ContinueStmt', 'ReturnStmt') for x in walk(body)):
+                raise AnalysisBroken('BOUND: break/continue/return inside a loop over a constant list in %s' % self.fn.name)
+            for v in vals:
+                self.env[('L', var['id'])] = (v, v)
+                self.run(body)
         elif k in ('CXXForRangeStmt', 'DoStmt', 'SwitchStmt'):
             raise AnalysisBroken('BOUND: statement kind %s in %s' % (k, self.fn.name))
         else:
@@ -394,6 +402,8 @@ class BFrame:
             if op == '+':
                 return v
             return TOP
+        if k == 'CXXOperatorCallExpr' and n.get('op') == '()':
+            return self.lambda_call(n)
         if k in ('BinaryOperator', 'CompoundAssignOperator', 'CXXOperatorCallExpr'):
             op = n.get('op')
             args = ks if k != 'CXXOperatorCallExpr' else ks[1:]
@@ -486,6 +496,36 @@ class BFrame:
         self.env[key] = v
 
     # ---- calls -------------------------------------------------------------------------------------------------------
+    def lambda_call(self, n):
+        """a call of a lambda written in this function: its body is evaluated in place with the parameters bound; a lambda that
+        writes a variable it did not declare is outside the rule"""
+        from prog import access_kind
+        g = self.b.p.funcs.get((n.get('callee') or {}).get('fid'))
+        if g is None or g.body is None or getattr(g, 'enclosing', None) is not self.fn or getattr(self, '_inl', 0) >= 3:
+            raise AnalysisBroken('BOUND: call of a function object at %s' % self.fn.loc(n))
+        own = {q['id'] for q in g.params} | {x['id'] for x in g.all_nodes() if x['k'] == 'VarDecl'}
+        for x in g.all_nodes():
+            r = x.get('ref') or {}
+            if x['k'] == 'DeclRefExpr' and r.get('k') in ('Local', 'Parm') and r.get('id') not in own and \
+                    access_kind(g, x) in ('write', 'rmw', 'addr'):
+                raise AnalysisBroken('BOUND: the lambda called at %s writes the captured variable %s' % (self.fn.loc(n), r.get('n')))
+        args = kids(n)[2:]
+        for q, a in zip(g.params, args):
+            v = self.ev(a)
+            self.env[('P', q['id'])] = v
+        saved = (self.rets, self.ret_sites)
+        self.rets, self.ret_sites = [], []
+        self._inl = getattr(self, '_inl', 0) + 1
+        try:
+            self.run(g.body)
+            rets = self.rets
+        finally:
+            self.rets, self.ret_sites = saved
+            self._inl -= 1
+        if any(r is None for r in rets):
+            return TOP
+        return hull(*rets) if rets else TOP
+
     def call(self, n, want):
         cal = n.get('callee', {})
         name = cal.get('n', '')
